@@ -46,7 +46,7 @@ import (
 
 // Answer is how the stub server answers one request.
 type Answer struct {
-	Kind   string `json:"kind"`   // valid | truncated | oversized | random | empty | reset
+	Kind   string `json:"kind"`   // valid | truncated | oversized | random | empty | reset | huge-length | no-length | stall
 	Status int    `json:"status"` // 200, 204, 301, 404, 500
 }
 
@@ -113,6 +113,12 @@ func (s *hostileServer) RoundTrip(r *http.Request) (*http.Response, error) {
 	if a.Kind == "reset" {
 		return nil, errors.New("stub: connection reset by peer")
 	}
+	if a.Kind == "stall" {
+		// a server that accepts the request and never answers: only the request's context
+		// (cycle deadline or the client's own timeout) ends this
+		<-r.Context().Done()
+		return nil, r.Context().Err()
+	}
 	body := s.validBody(r)
 	switch a.Kind {
 	case "truncated":
@@ -129,8 +135,25 @@ func (s *hostileServer) RoundTrip(r *http.Request) (*http.Response, error) {
 	if a.Status == 301 {
 		hdr.Set("Location", "/elsewhere")
 	}
-	return &http.Response{StatusCode: a.Status, Status: strconv.Itoa(a.Status), Header: hdr, Body: io.NopCloser(bytes.NewReader(body)), Request: r}, nil
+	resp := &http.Response{StatusCode: a.Status, Status: strconv.Itoa(a.Status), Header: hdr, Body: io.NopCloser(bytes.NewReader(body)), Request: r, ContentLength: int64(len(body))}
+	switch a.Kind {
+	case "huge-length":
+		// the header promises 2^62 bytes, the connection ends after a few: what a client
+		// sees is this length and a body that stops with "unexpected EOF"
+		resp.ContentLength = 1 << 62
+		resp.Body = io.NopCloser(io.MultiReader(bytes.NewReader(body), errReader{io.ErrUnexpectedEOF}))
+	case "no-length":
+		resp.ContentLength = -1
+	}
+	if resp.ContentLength >= 0 {
+		hdr.Set("Content-Length", strconv.FormatInt(resp.ContentLength, 10))
+	}
+	return resp, nil
 }
+
+type errReader struct{ err error }
+
+func (e errReader) Read([]byte) (int, error) { return 0, e.err }
 
 // validBody answers the request as an honest server of this feeder's format would, as far
 // as the harness can (checkpoints always; tiles from a real small tree where possible).
@@ -266,7 +289,7 @@ func runHostileInProcess(c *HostileCase) hostileResult {
 	}
 	attempts := vlib.Metrics.Snapshot("witness_update_request")
 	srv := &hostileServer{c: c}
-	client := &http.Client{Transport: srv, Timeout: 5 * time.Second}
+	client := &http.Client{Transport: srv, Timeout: 2 * time.Second} // like every shipped binary, the client has its own timeout
 	url := "http://hostile.example/base/"
 	if c.Feeder == "rekor" {
 		url = "http://hostile.example/base/?treeID=1234"
@@ -517,14 +540,14 @@ func genHostile(rt *rapid.T) *HostileCase {
 	n := rapid.IntRange(0, 5).Draw(rt, "nscript")
 	for i := 0; i < n; i++ {
 		c.Script = append(c.Script, Answer{
-			Kind:   rapid.SampledFrom([]string{"valid", "valid", "valid", "truncated", "oversized", "random", "empty", "reset"}).Draw(rt, "akind"),
+			Kind:   []string{"valid", "valid", "valid", "valid", "valid", "valid", "truncated", "truncated", "oversized", "oversized", "random", "random", "empty", "empty", "reset", "reset", "huge-length", "huge-length", "no-length", "no-length", "no-length", "stall"}[vlib.Uniform(rt, 22, "akind")],
 			Status: rapid.SampledFrom([]int{200, 200, 200, 200, 204, 301, 404, 500}).Draw(rt, "astatus"),
 		})
 	}
 	return c
 }
 
-const ruleC19feed = "scripts of hostile log-server / distributor behaviour (per request: valid, truncated, oversized 2 MiB, random, empty body x status 200/204/301/404/500 x connection reset; log-signed checkpoints with sizes from {0,1,..,2^62-1,2^62,2^62+1,2^63-1,2^63,2^64-1,random} and roots of 0/5/32/33 bytes or real roots) for the serverless, sumdb, pixel, rekor and tiles feeders and the REST distributor, against a real witness that already holds a smaller honest checkpoint; executed in child processes under a watchdog; oracle: no panic, the process survives, and the cycle returns a result or an error within its context deadline + 20 s; non-trivial = the cycle got past its first validation step (a second request was made or the witness was asked to update); distinct by case hash"
+const ruleC19feed = "scripts of hostile log-server / distributor behaviour (per request: valid, truncated, oversized 2 MiB, random, empty body, a Content-Length of 2^62 in front of a short body, no Content-Length, a server that never answers x status 200/204/301/404/500 x connection reset; the HTTP client has a 2 s timeout of its own, as in the shipped binaries; log-signed checkpoints with sizes from {0,1,..,2^62-1,2^62,2^62+1,2^63-1,2^63,2^64-1,random} and roots of 0/5/32/33 bytes or real roots) for the serverless, sumdb, pixel, rekor and tiles feeders and the REST distributor, against a real witness that already holds a smaller honest checkpoint; executed in child processes under a watchdog; oracle: no panic, the process survives, and the cycle returns a result or an error within its context deadline + 20 s; non-trivial = the cycle got past its first validation step (a second request was made or the witness was asked to update); distinct by case hash"
 
 func hostileHash(c *HostileCase) string {
 	b, _ := json.Marshal(c)
